@@ -85,11 +85,13 @@ pub fn run_space(ctx: &mut Ctx) {
         "C15" => c15::run(ctx),
         "C16" => c16::run(ctx),
         "C17" => {
-            sweep::effects_probes(ctx);
             crate::history::run(ctx);
             crate::sched::run(ctx);
             // sampling proviso, labelled as such in the evidence (see sched::stress)
             crate::sched::stress(ctx, if ctx.tier_thorough { 20_000 } else { 1_500 });
+            // last: the in-memory rules nested 1500 deep of the environment probes touch megabytes of stack, and
+            // every page a worker has dirtied is paid for again by each of the ~10^6 fork() snapshots of E2
+            sweep::effects_probes(ctx);
         }
         "C18" => crate::boundary::c18(ctx),
         "C19" => crate::boundary::python(ctx, "c19"),
